@@ -19,9 +19,11 @@ func checkC19(c *Ctx) {
 	c.NotDec = "the bit operations themselves (mask/shift semantics), and id 0 (index -1), which is outside the configured id range."
 	c.Expect("C19.2", 3)
 	c.Expect("C19.3", 3)
+	c.Expect("C19.6", 2)
 
 	// C19.1 construction sites of Multi with possibly more than one element
 	c19Multi(c)
+	c19Fresh(c)
 
 	// C19.2 counter discipline
 	ws := c.whoMayWrite("C19.2", p.Field("security/crypto", "Bitfield", "len"), "Bitfield.len", "(*hs/security/crypto.Bitfield).set", "hs/security/crypto.BitfieldFromBytes")
@@ -319,4 +321,77 @@ func phiBelow(fl *Flow, ph *ssa.Phi, bound int64) bool {
 		}
 	}
 	return true
+}
+
+// c19Fresh (C19.6): a bit field that is mutated owns its bytes. Bitfield is a struct around
+// a byte slice and a cached count; copying the struct shares the bytes but not the count,
+// so Add on a copy changes the membership of the original while its Len() stays stale.
+// Every receiver of (*Bitfield).Add must therefore be a local that starts as the zero
+// value and is never assigned another bit field.
+func c19Fresh(c *Ctx) {
+	p := c.P
+	add := p.Method("security/crypto", "Bitfield", "Add")
+	if add == nil {
+		c.Unresolved("C19.6", "Bitfield.Add", "anchor missing")
+		return
+	}
+	n := 0
+	for _, fn := range p.ModFuncs {
+		if strings.HasSuffix(p.FuncPos(fn), "_test.go") || fn == add {
+			continue
+		}
+		for _, s := range callsIn(fn, false, func(cc *ssa.CallCommon) bool { return calleeIs(cc, add) }) {
+			n++
+			recv := s.Common().Args[0]
+			// resolve a captured variable to the cell of the enclosing function
+			owner := fn
+			for i := 0; i < 4; i++ {
+				fv, ok := recv.(*ssa.FreeVar)
+				if !ok || owner.Parent() == nil {
+					break
+				}
+				var bound ssa.Value
+				eachInstr(owner.Parent(), func(in ssa.Instruction) {
+					if mc, ok := in.(*ssa.MakeClosure); ok && mc.Fn == owner {
+						for j, v := range owner.FreeVars {
+							if v == fv && j < len(mc.Bindings) {
+								bound = mc.Bindings[j]
+							}
+						}
+					}
+				})
+				if bound == nil {
+					break
+				}
+				recv, owner = bound, owner.Parent()
+			}
+			al, ok := recv.(*ssa.Alloc)
+			reason := ""
+			if !ok {
+				reason = "the receiver " + NewKeyer(p, fn).Key(s.Common().Args[0]) + " is not a local bit field of the function (it may share its bytes with another signature)"
+			} else {
+				k := NewKeyer(p, owner)
+				if al.Referrers() != nil {
+					for _, r := range *al.Referrers() {
+						if st, isSt := r.(*ssa.Store); isSt && st.Addr == al {
+							if u, isLoad := st.Val.(*ssa.UnOp); isLoad {
+								if a2, isA := u.X.(*ssa.Alloc); isA && a2.Comment == "complit" {
+									continue // Bitfield{} literal
+								}
+							}
+							if cst, isC := st.Val.(*ssa.Const); isC && cst.Value == nil {
+								continue
+							}
+							reason = "the accumulator is assigned " + k.Key(st.Val) + " at " + p.InstrPos(st) + ": it shares that bit field's bytes, and Add then changes the other signature's membership while its count stays stale"
+						}
+					}
+				}
+			}
+			c.Check(reason == "", "C19.6", shortName(fn)+": Add mutates a bit field that owns its bytes", p.Pos(s.Pos()),
+				"the receiver is a local that starts empty and is never assigned another bit field", reason)
+		}
+	}
+	if n < 2 {
+		c.Unresolved("C19.6", "Bitfield.Add call sites", "expected the sites in Sign and Combine; found "+itoa(n))
+	}
 }
